@@ -1,33 +1,34 @@
-package props
+package c01
 
 import (
 	"github.com/trajectoryjp/spatial_id_go/v4/common/object"
 	"github.com/trajectoryjp/spatial_id_go/v4/shape"
 
+	. "verif/harness/gen"
 	"verif/harness/run"
 	w "verif/harness/wire"
 )
 
 func fnPoints() *run.Fn {
 	return &run.Fn{Name: "GetExtendedSpatialIdsOnPoints", Invoke: func(a []w.Val) w.Val {
-		ids, err := shape.GetExtendedSpatialIdsOnPoints(pointsFromVal(a[0]), w.AsInt(a[1]), w.AsInt(a[2]))
+		ids, err := shape.GetExtendedSpatialIdsOnPoints(PointsFromVal(a[0]), w.AsInt(a[1]), w.AsInt(a[2]))
 		return w.WithErr(w.Strs(ids), err)
 	}}
 }
 func fnPointsSid() *run.Fn {
 	return &run.Fn{Name: "GetSpatialIdsOnPoints", Invoke: func(a []w.Val) w.Val {
-		ids, err := shape.GetSpatialIdsOnPoints(pointsFromVal(a[0]), w.AsInt(a[1]))
+		ids, err := shape.GetSpatialIdsOnPoints(PointsFromVal(a[0]), w.AsInt(a[1]))
 		return w.WithErr(w.Strs(ids), err)
 	}}
 }
 func fnNewPoint() *run.Fn {
 	return &run.Fn{Name: "NewPoint", Invoke: func(a []w.Val) w.Val {
 		p, err := object.NewPoint(w.AsFlt(a[0]), w.AsFlt(a[1]), w.AsFlt(a[2]))
-		return w.WithErr(pointVal(p), err)
+		return w.WithErr(PointVal(p), err)
 	}}
 }
 
-func (g *Gen) storedPointVal() w.Val {
+func storedPointVal(g *Gen) w.Val {
 	for {
 		_, v, ok := StoredPoint(g.Lon(), g.Lat(), g.Alt())
 		if ok {
@@ -48,10 +49,10 @@ func init() {
 			}
 			pts := make(w.List, k)
 			for j := range pts {
-				pts[j] = g.storedPointVal()
+				pts[j] = storedPointVal(g)
 			}
 			h, v := g.Zoom(), g.Zoom()
-			tags := []string{tag("hzoom=%d", h), tag("vzoom=%d", v), tag("npoints=%d", k)}
+			tags := []string{Tag("hzoom=%d", h), Tag("vzoom=%d", v), Tag("npoints=%d", k)}
 			switch {
 			case i%40 == 7: // recorded finding class: denormal altitudes
 				_, pv, ok := StoredPoint(g.Lon(), g.Lat(), g.AltDenormal())
